@@ -18,6 +18,7 @@ type Node struct {
 	ID    uint64
 	State distributed.State
 	Bcast *memberlist.TransmitLimitedQueue
+	seen  map[string]bool // Keep mode: payloads already reported by New()
 }
 
 func New(id uint64) *Node { return NewWithAudit(id, audit.NoneRecorder()) }
@@ -52,3 +53,29 @@ func (n *Node) Drain() [][]byte {
 		out = append(out, m...)
 	}
 }
+
+// NewKeeping builds a node whose transmit queue behaves as in production: a broadcast stays queued until it has been
+// handed out many times, so that a later broadcast can still invalidate (displace) it - which Drain's
+// take-everything-at-once queue can never show.
+func NewKeeping(id uint64, a audit.Recorder) *Node {
+	b := &memberlist.TransmitLimitedQueue{RetransmitMult: 1000, NumNodes: func() int { return 1 }}
+	return &Node{ID: id, Bcast: b, State: distributed.NewState(id, b, a), seen: map[string]bool{}}
+}
+
+// Keeping reports whether the node was built by NewKeeping.
+func (n *Node) Keeping() bool { return n.seen != nil }
+
+// New returns the payloads queued since the last call, leaving them in the queue (Keep mode).
+func (n *Node) New() [][]byte {
+	var out [][]byte
+	for _, m := range n.Bcast.GetBroadcasts(0, 1<<24) {
+		if !n.seen[string(m)] {
+			n.seen[string(m)] = true
+			out = append(out, m)
+		}
+	}
+	return out
+}
+
+// Held returns what the queue holds now (Keep mode): what the gossip layer would still send.
+func (n *Node) Held() [][]byte { return n.Bcast.GetBroadcasts(0, 1<<24) }
